@@ -63,6 +63,20 @@ pub fn site_values(site: &Site, file_len: usize) -> Vec<u64> {
             v.push(u64::MAX / e + 1);
         }
     }
+    // role-specific values: every section / segment type the crate distinguishes, every low flag bit
+    if site.role.ends_with(".sh_type") {
+        v.extend([4, 5, 6, 7, 8, 9, 10, 11, 14, 15, 16, 17, 18, 0x6fff_fff5, 0x6fff_fff6, 0x6fff_fff7, 0x6fff_fffd, 0x6fff_fffe, 0x6fff_ffff]);
+    }
+    if site.role.ends_with(".p_type") {
+        v.extend([4, 5, 6, 7, 0x6474_e550, 0x6474_e551, 0x6474_e552, 0x6474_e553]);
+    }
+    if site.role.ends_with(".sh_flags") {
+        v.extend((0..13).map(|b| 1u64 << b));
+        v.extend([0x802, 0x803]);
+    }
+    if site.role.ends_with(".e_type") {
+        v.extend([4, 5, 0xfe00, 0xff00]);
+    }
     v.push(site.valid.wrapping_sub(1));
     v.push(site.valid.wrapping_add(1));
     v.push(site.valid.wrapping_mul(2));
